@@ -2,6 +2,7 @@ package testutil
 
 import (
 	"io"
+	"testing"
 	"math/big"
 	mrand "math/rand"
 	"strings"
@@ -201,6 +202,95 @@ func VerifFixtureFile() {
 	wrapped := BuildDirectory(t, ls, []DirEntry{func() DirEntry { d := de; d.Path = "/x"; return d }()}, verifrt.Choose(2) == 1)
 	verifrt.Assert(!t.failed, "fixture:generator-ok")
 	readBack(ls, wrapped, true)
+	verifrt.Reach("end")
+}
+
+// readBackByName is readBack for WrapContent's descriptions, whose entries carry their
+// bare name (the last path element) rather than a full path: same names, links and
+// contents at every level.
+func readBackByName(ls *ipld.LinkSystem, de DirEntry) {
+	lnk := cidlink.Link{Cid: de.Root}
+	var proto datamodel.NodePrototype = dagpb.Type.PBNode
+	if de.Root.Prefix().Codec != 0x70 {
+		proto = basicnode.Prototype.Any
+	}
+	nd, err := ls.Load(ipld.LinkContext{}, lnk, proto)
+	verifrt.Assert(err == nil, "fixture:root-loads")
+	r, err := unixfsnode.Reify(ipld.LinkContext{}, nd, ls)
+	verifrt.Assert(err == nil, "fixture:reifies")
+	if r.Kind() == datamodel.Kind_Bytes {
+		b, err := r.AsBytes()
+		verifrt.Assert(err == nil && len(b) == len(de.Content) && verifrt.BytesEq(b, de.Content), "fixture:file-content=description")
+		verifrt.Assert(len(de.Children) == 0, "fixture:file-has-no-children")
+		return
+	}
+	verifrt.Assert(r.Length() == int64(len(de.Children)), "fixture:child-count=description")
+	seen := map[string]bool{}
+	for it := r.MapIterator(); !it.Done(); {
+		k, v, err := it.Next()
+		verifrt.Assert(err == nil, "fixture:iterates")
+		name, _ := k.AsString()
+		verifrt.Assert(name != "", "fixture:sibling-names-non-empty")
+		verifrt.Assert(!seen[name], "fixture:sibling-names-unique")
+		seen[name] = true
+		l, _ := v.AsLink()
+		var child *DirEntry
+		for i := range de.Children {
+			parts := strings.Split(de.Children[i].Path, "/")
+			if parts[len(parts)-1] == name {
+				child = &de.Children[i]
+			}
+		}
+		verifrt.Assert(child != nil, "fixture:stored-entry-is-described")
+		if child != nil {
+			verifrt.Assert(l.(cidlink.Link).Cid == child.Root, "fixture:entry-link=description")
+			readBackByName(ls, *child)
+		}
+	}
+}
+
+// VerifFixtureWrap (C19): WrapContent under a path of 1..3 segments, exclusive or
+// with generated siblings before and after at every level, describes what it stored.
+func VerifFixtureWrap() {
+	st := verifmodel.NewStore()
+	ls := st.LinkSystem()
+	var rr io.Reader = symReader{n: new(int)}
+	if verifrt.Native() {
+		rr = mrand.New(mrand.NewSource(1))
+	} else {
+		(&script{}).install(0)
+	}
+	de, err := UnixFSFile(*ls, 1+verifrt.Choose(2), WithRandReader(rr), WithChunker("size-2"))
+	verifrt.Assert(err == nil, "fixture:generator-ok")
+	paths := []string{"a", "a/b", "/a/b/c/"}
+	wp := paths[verifrt.Choose(len(paths))]
+	exclusive := verifrt.Choose(2) == 1
+	var wrapped DirEntry
+	panicked, pv := verifrt.Catch(func() { wrapped = WrapContent(new(testing.T), rr, ls, de, wp, exclusive) })
+	if panicked {
+		verifrt.Event("WrapContent panicked: " + verifrt.PanicValueString(pv))
+	}
+	verifrt.Assert(!panicked, "fixture:wrap-generator-ok")
+	readBackByName(ls, wrapped)
+	// the wanted content is reachable under the path, with its bytes
+	cur := wrapped
+	for _, seg := range strings.Split(strings.Trim(wp, "/"), "/") {
+		var next *DirEntry
+		for i := range cur.Children {
+			if cur.Children[i].Path == seg {
+				next = &cur.Children[i]
+			}
+		}
+		verifrt.Assert(next != nil, "fixture:wrap-path-described")
+		if next == nil {
+			verifrt.Stop()
+		}
+		cur = *next
+	}
+	verifrt.Assert(cur.Root == de.Root, "fixture:wrapped-content-at-path")
+	if !exclusive {
+		verifrt.Reach("with-siblings")
+	}
 	verifrt.Reach("end")
 }
 
